@@ -72,6 +72,85 @@ theorem sendCore_spec (env : Env) {m : Msg} (hm : isNew m = true) : MSpec i (sen
           subst hf
           exact ⟨_, hseq, rows_find_append_new hJ.below⟩
 
+/-- text that no session can put on the wire: a tag the encoder copies into the frame (every tag but 34, 52,
+49, 56) holds a character outside latin-1.  `send_msg` refuses such a message with EncodingError. -/
+def unencodable (m : Msg) : Bool :=
+  m.tags.any fun p => !isLatin1 p.2 &&
+    (p.1 ≠ tMsgSeqNum && p.1 ≠ tSendingTime && p.1 ≠ tSenderCompID && p.1 ≠ tTargetCompID)
+
+theorem buildFrame_not_latin1 (s : Session) (stamp : String) {m : Msg} (seq : Int) (h : unencodable m = true) :
+    frameLatin1 (buildFrame s stamp m seq) = false := by
+  simp only [unencodable, List.any_eq_true, Bool.and_eq_true, Bool.not_eq_true'] at h
+  obtain ⟨p, hp, hl, hk⟩ := h
+  simp only [frameLatin1, List.all_eq_false]
+  refine ⟨p, ?_, by simp [hl]⟩
+  simp only [buildFrame, bodyFields, List.mem_append, List.mem_filter]
+  exact Or.inl (Or.inr (Or.inr ⟨hp, by simpa [Bool.and_eq_true] using hk⟩))
+
+/-- number selection of `Codec.encode`, any message: no effect, the journal untouched; when it raises
+(EncodingError / ValueError / TagNotFoundError) nothing at all has changed -/
+theorem encodeSeq_shape (m : Msg) (c : Conn) :
+    (encodeSeq m c).eff = [] ∧ (encodeSeq m c).conn.journal = c.journal ∧
+    (∀ ex, (encodeSeq m c).res = .error ex → benign ex = true ∧ (encodeSeq m c).conn = c) := by
+  have own : ∀ c : Conn,
+      ((if (!m.has tMsgSeqNum) = true then (M.throw .encoding : M Int)
+        else do let v ← M.liftE (m.get tMsgSeqNum); M.int v) c).eff = [] ∧
+      ((if (!m.has tMsgSeqNum) = true then (M.throw .encoding : M Int)
+        else do let v ← M.liftE (m.get tMsgSeqNum); M.int v) c).conn = c ∧
+      (∀ ex, ((if (!m.has tMsgSeqNum) = true then (M.throw .encoding : M Int)
+        else do let v ← M.liftE (m.get tMsgSeqNum); M.int v) c).res = .error ex → benign ex = true) := by
+    intro c
+    split
+    · exact ⟨rfl, rfl, by intro ex h; cases h; rfl⟩
+    · simp only [M.bind_apply, M.liftE_apply]
+      cases hg : m.get tMsgSeqNum with
+      | error e =>
+        refine ⟨rfl, rfl, ?_⟩
+        intro ex h
+        simp only [Except.error.injEq] at h
+        subst h
+        unfold Msg.get at hg
+        split at hg <;> cases hg
+        rfl
+      | ok v =>
+        simp only [M.int_apply]
+        cases pyInt v with
+        | none => exact ⟨rfl, rfl, by intro ex h; cases h; rfl⟩
+        | some n => exact ⟨rfl, rfl, by intro ex h; cases h⟩
+  unfold encodeSeq
+  split
+  · obtain ⟨h1, h2, h3⟩ := own c
+    exact ⟨h1, by rw [h2], fun ex h => ⟨h3 ex h, h2⟩⟩
+  · split
+    · obtain ⟨h1, h2, h3⟩ := own c
+      exact ⟨h1, by rw [h2], fun ex h => ⟨h3 ex h, h2⟩⟩
+    · exact ⟨rfl, rfl, by intro ex h; cases h⟩
+
+/-- a message whose text cannot be encoded – whether it would take a new number or carries its own – is
+refused with everything on the outbound side as it was -/
+theorem sendCore_spec_unencodable (env : Env) {m : Msg} (hm : unencodable m = true) : MSpec i (sendCore env m) := by
+  constructor
+  intro c hJ
+  obtain ⟨he, hj, hx⟩ := encodeSeq_shape m c
+  rcases hres : encodeSeq m c with ⟨r, c1, e1⟩
+  rw [hres] at he hj hx
+  simp only at he hj hx
+  subst he
+  unfold sendCore
+  simp only [M.bind_apply, M.get_apply]
+  split
+  · exact seg_raise hJ rfl
+  · simp only [M.bind_apply, hres]
+    cases r with
+    | error ex =>
+      obtain ⟨hb, hc⟩ := hx ex rfl
+      subst hc
+      simpa [pend] using (seg_raise (i := i) hJ hb)
+    | ok seq =>
+      simp only [M.bind_apply, M.get_apply, List.nil_append, buildFrame_not_latin1 _ _ _ hm, Bool.not_false,
+        if_true, M.modify_apply, M.throw_apply, pend]
+      exact Seg.of_same hJ ⟨rfl, by simp [hj], by simp [hj]⟩ rfl rfl rfl
+
 theorem sendGate_spec (m : Msg) : MSpec i (sendGate m) := by
   unfold sendGate
   spec_tac [MSpec.modify', stateSet_spec]
